@@ -4,7 +4,7 @@
    exactly the caller-buffer preconditions.)  Entry points not modelled here
    (signatures, password-hash strings, MAC verification through the object API)
    are covered by the correspondence / search part of the check only. *)
-From Dryoc Require Import Impl.SecretBox Impl.SecretStream Impl.Box Refine.Aead Refine.Stream Refine.Box.
+From Dryoc Require Import Impl.SecretBox Impl.SecretStream Impl.Box Impl.Argon2 Refine.Aead Refine.Stream Refine.Box Refine.Argon2.
 Import SecretBoxImpl.
 Open Scope Z_scope.
 
@@ -34,6 +34,12 @@ Proof. exact box_open_inplace_total. Qed.
 
 Theorem C04_seal_open_total : forall mbuf c rpk rsk, fst (BoxImpl.seal_open mbuf c rpk rsk) <> Panic.
 Proof. exact seal_open_total. Qed.
+
+(* PwHash::verify on a stored record (serde): a record whose declared hash length -- any number, up to 2^64 - 1 -- is not the
+   length of the hash it carries is answered with Err; the declared number sizes nothing (fix 91e2e19) *)
+Theorem C04_pwhash_record_length_mismatch : forall stored salt hl ops mem alg pwd,
+  Z.of_nat (length stored) <> hl -> Argon2Impl.verify stored salt hl ops mem alg pwd = Err.
+Proof. exact verify_length_mismatch. Qed.
 
 Example C04_example :
   fst (SecretStreamImpl.obj_pull_c (SecretStreamImpl.mk_state (zeros 32) (zeros 12)) [1;2;3;4;5] []) = Err.
